@@ -16,6 +16,7 @@ SCOPE = {
     'quick': 'callables: <=2 positional-or-keyword parameters (with/without defaults), optional *args, <=1 keyword-only '
              'parameter (with/without default), optional **kw; as function, bound method, callable instance and partial fixing <=2 '
              'positionals and/or one keyword; calls: 0..3 positionals x every subset (<=2) of the parameter names + one foreign name',
+    'reserved names': 'both tiers: every parameter name of klepto\'s own signatures as the name of a user parameter (6 callable forms, every way of passing it, plus two invalid calls)',
     'thorough': 'callables: <=3 positional-or-keyword parameters, optional *args, <=2 keyword-only parameters, optional **kw; '
                 'function, bound method, callable instance, partials fixing <=2 positionals and/or one keyword; calls: 0..4 '
                 'positionals x every subset (<=3) of the parameter names + one foreign name',
@@ -27,9 +28,15 @@ ASSUMPTIONS = ['bounded scope (see coverage.scope): not a proof', 'ground truth 
 def units(tier, seed):
     if tier == 'thorough':
         shs = S.shapes(3, 2)
-        return [('thorough', i) for i in range(len(shs))]
+        return [('thorough', i) for i in range(len(shs))] + _reserved_units()
     shs = S.shapes(2, 1)
-    return [('quick', i) for i in range(len(shs))]
+    return [('quick', i) for i in range(len(shs))] + _reserved_units()
+
+
+def _reserved_units():
+    from bounded import reserved_names as RN
+    n = len(RN.names())
+    return [('reserved', lo, min(lo + 16, n)) for lo in range(0, n, 16)]
 
 
 def _params(mode):
@@ -45,6 +52,9 @@ def klass_of(shape, form, args, kwitems, truth, got):
 
 
 def run_unit(unit):
+    if unit[0] == 'reserved':
+        from bounded import reserved_names as RN
+        return RN.run_c19(unit[1], unit[2])
     mode, idx = unit
     (npos, nkwo), maxpos, maxkw = _params(mode)
     shape = S.shapes(npos, nkwo)[idx]
@@ -72,6 +82,9 @@ def run_unit(unit):
 
 
 def replay(w):
+    if 'reserved' in w:
+        from bounded import reserved_names as RN
+        return RN.replay(w)
     (npos, nkwo), maxpos, maxkw = _params(w['mode'])
     shape = S.shapes(npos, nkwo)[w['shape']]
     entered = []
